@@ -5,7 +5,11 @@
   programs      harness/h2/gen_c11.py scenarios -> C++17 programs compiled against /repo/include as it is now
   model         ocaml/thunk_driver.ml around the extracted model prints the expected trace
   oracle        independent of the model: the property itself judged on the program's own output
-                (Python's own subobject computation; addresses named by the language's own conversions)
+                (Python's own subobject computation; addresses named by the language's own conversions;
+                 smart pointers, incl. const virtual_shared_ptr<T>&: use_count delta, owner_before equivalence with the
+                 caller's pointer, and a copy kept by the definition keeps a fresh object alive after the caller dropped
+                 its own pointers - weak_ptr::expired and a constructor/destructor balance, nothing dangling is read)
+  checks/C02_kinds.py reuses the builder of this file for the unresolvable calls of property C02.
 
 ./check C11 [--tier quick|thorough] [--replay replay/C11-n.json]
 """
@@ -123,7 +127,7 @@ def oracle_call(exp, lines):
         # which definition runs is C01's subject; here it only means the rest cannot be judged
         fails.append('definition %s ran, scenario expects %s' % (dl[0].split()[1], exp['def']))
         return fails, k1
-    seen_v, seen_n = set(), set()
+    seen_v, seen_n, seen_k = set(), set(), set()
     for l in lines:
         if l.startswith('V '):
             pos = int(l.split()[1])
@@ -181,6 +185,22 @@ def oracle_call(exp, lines):
                 fails.append('%s copy constructions during the call, %d expected (%s)' % (f.get('cp'), allowed, l))
             if f.get('as') != '0':
                 fails.append('assignments of tracked arguments during the call: ' + l)
+        elif l.startswith('K '):
+            pos = int(l.split()[1])
+            seen_k.add(pos)
+            e = exp['v'].get(pos)
+            if e is None or not e.get('keep'):
+                fails.append('unexpected line: ' + l)
+            elif fields(l).get('kept') != '1':
+                fails.append('virtual argument %d (%s): the copy of the smart pointer kept by the definition does not keep the object alive '
+                             'once the caller has dropped its own pointers (no shared ownership)' % (pos, e['kind']))
+        elif l.startswith('L '):
+            f = fields(l)
+            want = sum(e['nsub'] for e in exp['v'].values() if e.get('keep'))
+            if f.get('alive') != str(want):
+                fails.append('%s subobjects alive while the definition\'s kept pointers are the only owners, %d expected' % (f.get('alive'), want))
+            if f.get('freed') != '1':
+                fails.append('objects not destroyed after the kept pointers were dropped')
         elif l.startswith('R '):
             f = fields(l)
             if f.get('k') != exp['ret']:
@@ -197,6 +217,8 @@ def oracle_call(exp, lines):
             fails.append('missing argument lines')
         if not any(l.startswith('R ') for l in lines):
             fails.append('no return line')
+        if seen_k != set(pos for pos, e in exp['v'].items() if e.get('keep')):
+            fails.append('missing ownership lines')
     return fails, k1
 
 
